@@ -436,6 +436,11 @@ def _apply(cfg, frame, mut):
         cfg.pop(k, None)
     for k, v in mut["set"].items():
         cfg[k] = copy.deepcopy(v)
+    if isinstance(cfg.get("evaluation_task"), dict) and "__enum__" in cfg["evaluation_task"]:
+        # the task given as an EvaluationTask member instead of its name (JSON descriptors cannot hold the member)
+        from perception_eval.common.evaluation_task import EvaluationTask
+
+        cfg["evaluation_task"] = EvaluationTask(cfg["evaluation_task"]["__enum__"])
     return cfg, copy.deepcopy(mut.get("frame", frame))
 
 
@@ -450,7 +455,7 @@ def mutations(b):
     task = cfg["evaluation_task"]
     out = []
     if kind == "sensing":
-        for t in ["foo", "detection", "tracking2d", "", None]:
+        for t in ["foo", "detection", "tracking2d", "", None, {"__enum__": "detection"}, {"__enum__": "classification2d"}]:
             out.append(_mut("unsupported-task", {"evaluation_task": t}))
         out.append(_mut("missing-mandatory", del_=["evaluation_task"]))
         for fr in (["base_link", "map"], ["map", "base_link"]):
@@ -461,7 +466,7 @@ def mutations(b):
 
     n = _expected_n(cfg)
     is3d = task in TASKS_3D
-    for t in ["foo", "sensing", "", "detection3d", None]:
+    for t in ["foo", "sensing", "", "detection3d", None, {"__enum__": "sensing"}]:
         out.append(_mut("unsupported-task", {"evaluation_task": t}))
     out.append(_mut("missing-mandatory", del_=["evaluation_task"], note="evaluation_task"))
     out.append(_mut("missing-mandatory", del_=["label_prefix"], note="label_prefix"))
@@ -661,9 +666,13 @@ def config_cases(draw, tier):
     if b["kind"] == "perception":
         options += ["respell"] * 4 + ["wrong-length", "non-numeric", "unknown-key-random"]
     options.append("identity")
+    options.append("task-as-member")
     c = draw(st.sampled_from(options))
     if c == "identity":
         mut = _mut("identity")
+    elif c == "task-as-member":
+        # the same valid configuration with its task given as the EvaluationTask member: accepted, same normalised lists
+        mut = _mut("task-as-member", {"evaluation_task": {"__enum__": b["cfg"]["evaluation_task"]}})
     elif c == "unknown-key-random":
         key = draw(st.from_regex(r"[a-z][a-z0-9_]{0,24}", fullmatch=True).filter(lambda k: k not in KNOWN_KEYS))
         mut = _mut("unknown-key", {key: draw(st.one_of(numbers(), st.just([0.8]), st.just("x")))})
@@ -717,6 +726,13 @@ def _config_body(ctx, d):
         else:
             kind_ = "wrong-length" if info in ("wrong-length", "wrong-row-length", "empty", "empty-row") else "non-numeric"
             ctx.require(not acc, f"config-{kind_}-accepted", lambda: f"task {task}: {key}={_short(val)} (n={n}, malformed: {info}) was accepted; exposed {_short(_snapshot(obj).get(FILTER_OUT.get(key, key)), 200)}")
+        return
+
+    if cls == "task-as-member":
+        acc, obj = _try(_construct, kind, mcfg, mframe)
+        ctx.require(acc, "task-as-member-rejected", lambda: f"task {task} given as the EvaluationTask member raised {type(obj).__name__}: {obj}")
+        if acc and kind == "perception":
+            ctx.require(_snapshot(obj) == _snapshot(base), "task-as-member-differs", lambda: f"task {task}: configuration built from the member differs from the one built from its name")
         return
 
     # (3) targeted mutation => rejected
